@@ -251,6 +251,658 @@ theorem reachable_inv_derived (srcs : List Reg) (strict : Bool) (f0 : Frame)
     have hinv' : Spec.Inv { t with info := i1 } := hinv
     exact ⟨hinv', units_positional _ hinv' hnd, units_length _ hinv'⟩
 
+/-! ## own unit across histories
+
+  `Spec.track` is the declarative account of which unit a column *owns* after each operation: the unit
+  explicitly given for it (construction by position, `add_column` with a unit, a unit setter, a re-wrap with a
+  unit list) or, for a derived frame, the unit of the first source that has the column.  It never looks at
+  the register.  `step_owns` proves, operation by operation and for arbitrary frame effects, that the
+  register keeps reporting exactly that unit for every column that stays; `reachable_own` is the induction. -/
+
+namespace Spec
+
+abbrev Own := Str → Option Str
+
+def restrictOwn (own : Own) (names : List Str) : Own := fun n => if n ∈ names then own n else none
+def forget (own : Own) (ks : List Str) : Own := fun n => if n ∈ ks then none else own n
+def assignOwn : Own → List (Str × Str) → Own
+  | o, [] => o
+  | o, (k, u) :: rest => assignOwn (fun n => if n = k then some u else o n) rest
+def zipOwn (names us : List Str) : Own := fun n => ((names.zip us).find? (fun p => p.1 = n)).map (·.2)
+/-- the unit of the first source register that has the column -/
+def firstUnit (srcs : List Reg) (n : Str) : Option Str := (srcs.findSome? (fun r => lookup r n)).map (·.unit)
+
+/-- ownership after one operation (`ok`: the operation raised nothing) -/
+def track (t : Tbl) (own : Own) (op : Op) : Own :=
+  let ok := (step t op).2.isNone
+  match op with
+  | .mutate f => restrictOwn own f.names
+  | .consult => own
+  | .addColumn n u _ _ f => restrictOwn (fun k => if k = n then (if ok then u else none) else own k) f.names
+  | .setUnits m => if ok then restrictOwn (assignOwn own m) t.frame.names else forget own (m.map (·.1))
+  | .setAllUnits us =>
+    if ok then restrictOwn (assignOwn own (t.frame.names.zip us)) t.frame.names
+    else forget own ((t.frame.names.zip us).map (·.1))
+  | .setColUnit n u => if ok then restrictOwn (assignOwn own [(n, u)]) t.frame.names else forget own [n]
+  | .setFmt _ _ => own
+  | .setStrict _ => own
+  | .rewrap us _ =>
+    if ok then (if t.frame.empty then (fun _ => none) else match us with
+      | none => own
+      | some l => zipOwn t.frame.names l)
+    else own
+  | .derive srcs _ f => if ok then restrictOwn (firstUnit srcs) f.names else own
+
+def trackRun (t : Tbl) (own : Own) : List Op → Own
+  | [] => own
+  | op :: ops => trackRun (step t op).1 (track t own op) ops
+
+/-- every owned column is in the frame and the per-column lookup reports the owned unit -/
+def Owns (t : Tbl) (own : Own) : Prop :=
+  ∀ n u, own n = some u → n ∈ t.frame.cols.map (·.name) ∧ ∃ m, lookup t.info.reg n = some m ∧ m.unit = u
+
+end Spec
+
+/-- register-level form of `Spec.Owns` -/
+def OwnsG (i : Info) (f : Frame) (own : Spec.Own) : Prop :=
+  ∀ n u, own n = some u → n ∈ f.names ∧ ∃ m, get i.reg n = some m ∧ m.unit = u
+
+theorem owns_iff (t : Tbl) (own : Spec.Own) : Spec.Owns t own ↔ OwnsG t.info t.frame own := by
+  unfold Spec.Owns OwnsG Frame.names
+  constructor <;> (intro h n u hn; have := h n u hn; simpa [get_eq_lookup] using this)
+
+/-! ### per-operation frame lemmas -/
+
+theorem assignUnits_get_other (r : Reg) (m : List (Str × Str)) (k : Str) (hk : k ∉ m.map (·.1)) :
+    get (assignUnits r m).1 k = get r k := by
+  induction m generalizing r with
+  | nil => simp [assignUnits]
+  | cons p rest ih =>
+    obtain ⟨n, u⟩ := p
+    have h0 : ¬ n = k := by intro e; apply hk; simp [e]
+    have hr : k ∉ rest.map (·.1) := by intro e; apply hk; simp at e ⊢; exact Or.inr e
+    unfold assignUnits
+    cases hg : get r n with
+    | none => simp
+    | some cm => simp only; rw [ih _ hr, get_set]; simp [h0]
+
+theorem assignUnits_owns (r r' : Reg) (m : List (Str × Str)) (own : Spec.Own)
+    (h : assignUnits r m = (r', none))
+    (ho : ∀ n u, own n = some u → ∃ cm, get r n = some cm ∧ cm.unit = u) :
+    ∀ n u, Spec.assignOwn own m n = some u → ∃ cm, get r' n = some cm ∧ cm.unit = u := by
+  induction m generalizing r own with
+  | nil => simp [assignUnits] at h; subst h; simpa [Spec.assignOwn] using ho
+  | cons p rest ih =>
+    obtain ⟨k, u0⟩ := p
+    unfold assignUnits at h
+    cases hg : get r k with
+    | none => simp [hg] at h
+    | some cm =>
+      simp only [hg] at h
+      unfold Spec.assignOwn
+      apply ih _ _ h
+      intro n u hn
+      by_cases hk : n = k
+      · subst hk
+        simp at hn; subst hn
+        exact ⟨{ cm with unit := u0 }, by rw [get_set]; simp, rfl⟩
+      · simp only [hk, if_false] at hn
+        obtain ⟨cm', h1, h2⟩ := ho n u hn
+        have hk' : ¬ k = n := fun e => hk e.symm
+        exact ⟨cm', by rw [get_set]; simp [hk', h1], h2⟩
+
+/-- unit setters: columns not named in the map keep their entry, whatever happens -/
+theorem setUnits_get_other (i : Info) (f : Frame) (m : List (Str × Str)) (k : Str) (mm : ColMeta)
+    (hk : k ∉ m.map (·.1)) (hn : k ∈ f.names) (hg : get i.reg k = some mm) :
+    get (setUnits i f m).1.reg k = some mm := by
+  unfold setUnits
+  have hc := checkDataframe_keeps i f k mm hn hg
+  cases h : checkDataframe i f with
+  | mk i1 e =>
+    rw [h] at hc
+    cases e with
+    | some e => simpa using hc
+    | none =>
+      simp only
+      have := assignUnits_get_other i1.reg m k hk
+      cases ha : assignUnits i1.reg m with
+      | mk r e2 => rw [ha] at this; simp only at this ⊢; rw [this]; exact hc
+
+/-- unit setters that succeed: every column reports the unit the map (last) gave it, the others their own -/
+theorem setUnits_owns (i i' : Info) (f : Frame) (m : List (Str × Str)) (own : Spec.Own)
+    (h : setUnits i f m = (i', none)) (ho : OwnsG i f own) :
+    ∀ n u, Spec.assignOwn own m n = some u → ∃ cm, get i'.reg n = some cm ∧ cm.unit = u := by
+  unfold setUnits at h
+  cases hcd : checkDataframe i f with
+  | mk i1 e =>
+    rw [hcd] at h
+    cases e with
+    | some e => simp at h
+    | none =>
+      simp only at h
+      cases ha : assignUnits i1.reg m with
+      | mk r e2 =>
+        rw [ha] at h
+        simp only at h
+        obtain ⟨rfl, rfl⟩ := Prod.mk.inj h
+        apply assignUnits_owns i1.reg r m own ha
+        intro n u hn
+        obtain ⟨hin, cm, h1, h2⟩ := ho n u hn
+        have := checkDataframe_keeps i f n cm hin h1
+        rw [hcd] at this
+        exact ⟨cm, this, h2⟩
+
+theorem addColumnCore_get_other (i : Info) (f : Frame) (n k : Str) (u du fm : Option Str) (hk : ¬ k = n) :
+    get (addColumnCore i f n u du fm).1.reg k = get i.reg k := by
+  have hk' : ¬ n = k := fun e => hk e.symm
+  unfold addColumnCore
+  simp only
+  cases hfind : f.cols.find? (fun c => c.name = n) with
+  | none => rfl
+  | some c =>
+    simp only
+    cases u with
+    | none =>
+      simp only
+      cases hu : unitFromKind c.kind with
+      | error e => rfl
+      | ok u0 => simp only; cases hget : get i.reg n <;> simp [get_set, hk']
+    | some u0 => simp only; cases hget : get i.reg n <;> simp [get_set, hk']
+
+/-- `add_column` never touches the entry of another column -/
+theorem addColumn_get_other (i : Info) (f : Frame) (n k : Str) (u du fm : Option Str) (hk : ¬ k = n) :
+    get (addColumn i f n u du fm).1.reg k = get i.reg k := by
+  unfold addColumn
+  by_cases h : (u.isNone && dupLabel f n) = true
+  · simp [h]
+  · simp only [h]; exact addColumnCore_get_other i f n k u du fm hk
+
+/-- `add_column` with an explicit unit: the column reports that unit -/
+theorem addColumn_get_target (i i' : Info) (f : Frame) (n x : Str) (du fm : Option Str)
+    (h : addColumn i f n (some x) du fm = (i', none)) : ∃ m, get i'.reg n = some m ∧ m.unit = x := by
+  unfold addColumn at h
+  simp only [Option.isNone_some, Bool.false_and, Bool.false_eq_true, if_false] at h
+  unfold addColumnCore at h
+  simp only at h
+  cases hfind : f.cols.find? (fun c => c.name = n) with
+  | none => simp [hfind] at h
+  | some c =>
+    simp only [hfind] at h
+    cases hget : get i.reg n with
+    | none =>
+      simp only [hget] at h
+      obtain ⟨rfl, _⟩ := Prod.mk.inj h
+      exact ⟨{ unit := x, dunit := du, fmt := fm }, by simp [get_set], rfl⟩
+    | some col =>
+      simp only [hget] at h
+      obtain ⟨rfl, _⟩ := Prod.mk.inj h
+      exact ⟨updateFrom col { unit := x, dunit := du, fmt := fm }, by simp [get_set], rfl⟩
+
+/-- editing a display format changes no unit -/
+theorem setColFmt_unit (i : Info) (f : Frame) (n0 k : Str) (fm : Option Str) (mm : ColMeta)
+    (hn : k ∈ f.names) (hg : get i.reg k = some mm) :
+    ∃ mm', get (setColFmt i f n0 fm).1.reg k = some mm' ∧ mm'.unit = mm.unit := by
+  unfold setColFmt
+  have hc := checkDataframe_keeps i f k mm hn hg
+  cases h : checkDataframe i f with
+  | mk i1 e =>
+    rw [h] at hc
+    cases e with
+    | some e => exact ⟨mm, by simpa using hc, rfl⟩
+    | none =>
+      simp only
+      cases hget : get i1.reg n0 with
+      | none => exact ⟨mm, by simpa using hc, rfl⟩
+      | some m0 =>
+        simp only
+        by_cases hk : n0 = k
+        · subst hk
+          rw [hget] at hc; cases hc
+          exact ⟨{ mm with fmt := fm }, by rw [get_set]; simp, rfl⟩
+        · exact ⟨mm, by rw [get_set]; simp [hk, hc], rfl⟩
+
+theorem get_mem (r : Reg) (n : Str) (m : ColMeta) (h : get r n = some m) : (n, m) ∈ r := by
+  induction r with
+  | nil => simp [Meta.get] at h
+  | cons kv r ih =>
+    obtain ⟨k, v⟩ := kv
+    by_cases hk : k = n
+    · simp [Meta.get, hk] at h; subst h; subst hk; exact List.mem_cons_self
+    · simp only [Meta.get, hk, if_false] at h
+      exact List.mem_cons_of_mem _ (ih h)
+
+theorem mem_zip_keys_units (r : Reg) (n : Str) (m : ColMeta) (h : get r n = some m) :
+    (n, m.unit) ∈ (keys r).zip (units r) := by
+  have : (keys r).zip (units r) = r.map (fun kv => (kv.1, kv.2.unit)) := by
+    unfold keys units
+    exact List.zip_map' ..
+  rw [this]
+  exact List.mem_map.2 ⟨(n, m), get_mem r n m h, rfl⟩
+
+theorem zipOwn_mem (names us : List Str) (n u : Str) (h : Spec.zipOwn names us n = some u) :
+    (n, u) ∈ names.zip us := by
+  unfold Spec.zipOwn at h
+  cases hf : (names.zip us).find? (fun p => p.1 = n) with
+  | none => simp [hf] at h
+  | some p =>
+    simp [hf] at h
+    have hm := List.mem_of_find?_eq_some hf
+    have hp := List.find?_some hf
+    simp at hp
+    obtain ⟨a, b⟩ := p
+    simp at hp h
+    subst hp; subst h
+    exact hm
+
+/-! the column part of `_combine_tables`: a column's unit is that of the first source that has it -/
+
+def unitOf (r : Reg) (n : Str) : Option Str := (get r n).map (·.unit)
+
+theorem unitOf_none (r : Reg) (n : Str) : unitOf r n = none ↔ get r n = none := by
+  unfold unitOf; cases get r n <;> simp
+
+theorem combineOne_unit_keep (out : List Str) (acc s r : Reg) (n u : Str)
+    (h : combineOne out acc s = .ok r) (hu : unitOf acc n = some u) : unitOf r n = some u := by
+  induction s generalizing acc with
+  | nil => simp [combineOne] at h; subst h; exact hu
+  | cons p rest ih =>
+    obtain ⟨k, c⟩ := p
+    unfold combineOne at h
+    by_cases ho : out.contains k = true
+    · simp only [ho, Bool.not_true, Bool.false_eq_true, if_false] at h
+      cases hg : get acc k with
+      | none =>
+        simp only [hg] at h
+        apply ih _ h
+        have hk : ¬ k = n := by
+          intro e; subst e; unfold unitOf at hu; rw [hg] at hu; simp at hu
+        unfold unitOf at hu ⊢; rw [get_set]; simpa [hk] using hu
+      | some col =>
+        simp only [hg] at h
+        by_cases hne : col.unit ≠ c.unit
+        · simp [hne] at h
+        · simp only [hne, if_false] at h
+          apply ih _ h
+          unfold unitOf; rw [get_set]
+          by_cases hk : k = n
+          · subst hk
+            unfold unitOf at hu; rw [hg] at hu
+            simp at hu hne
+            simp [updateFrom, ← hne, hu]
+          · unfold unitOf at hu; simpa [hk] using hu
+    · have ho' : out.contains k = false := by simpa using ho
+      simp only [ho', Bool.not_false, if_true] at h
+      exact ih acc h hu
+
+theorem combineOne_unit_new (out : List Str) (acc s r : Reg) (n : Str)
+    (h : combineOne out acc s = .ok r) (hn : n ∈ out) (hnone : get acc n = none) : unitOf r n = unitOf s n := by
+  induction s generalizing acc with
+  | nil => simp [combineOne] at h; subst h; simp [unitOf, hnone, Meta.get]
+  | cons p rest ih =>
+    obtain ⟨k, c⟩ := p
+    unfold combineOne at h
+    by_cases ho : out.contains k = true
+    · simp only [ho, Bool.not_true, Bool.false_eq_true, if_false] at h
+      by_cases hk : k = n
+      · subst hk
+        simp only [hnone] at h
+        have := combineOne_unit_keep out _ rest r k c.unit h (by unfold unitOf; rw [get_set]; simp [copyMeta, updateFrom])
+        rw [this]; simp [unitOf, Meta.get]
+      · have hs : unitOf ((k, c) :: rest) n = unitOf rest n := by simp [unitOf, Meta.get, hk]
+        rw [hs]
+        cases hg : get acc k with
+        | none =>
+          simp only [hg] at h
+          exact ih _ h (by rw [get_set]; simp [hk, hnone])
+        | some col =>
+          simp only [hg] at h
+          by_cases hne : col.unit ≠ c.unit
+          · simp [hne] at h
+          · simp only [hne, if_false] at h
+            exact ih _ h (by rw [get_set]; simp [hk, hnone])
+    · have ho' : out.contains k = false := by simpa using ho
+      simp only [ho', Bool.not_false, if_true] at h
+      have hk : ¬ k = n := by
+        intro e; subst e
+        have := List.contains_iff_mem.2 hn
+        rw [ho'] at this; cases this
+      have hs : unitOf ((k, c) :: rest) n = unitOf rest n := by simp [unitOf, Meta.get, hk]
+      rw [hs]
+      exact ih acc h hnone
+
+theorem combine_unit (out : List Str) (acc : Reg) (srcs : List Reg) (r : Reg) (n : Str)
+    (h : combine out acc srcs = .ok r) (hn : n ∈ out) :
+    unitOf r n = match unitOf acc n with
+      | some u => some u
+      | none => (srcs.findSome? (fun s => get s n)).map (·.unit) := by
+  induction srcs generalizing acc with
+  | nil => simp [combine] at h; subst h; cases unitOf acc n <;> simp
+  | cons s rest ih =>
+    unfold combine at h
+    cases h1 : combineOne out acc s with
+    | error e => simp [h1] at h
+    | ok acc' =>
+      simp only [h1] at h
+      rw [ih acc' h]
+      cases hu : unitOf acc n with
+      | some u => simp only; rw [combineOne_unit_keep out acc s acc' n u h1 hu]
+      | none =>
+        have hnone := (unitOf_none acc n).1 hu
+        have hnew := combineOne_unit_new out acc s acc' n h1 hn hnone
+        simp only
+        rw [hnew]
+        cases hs : get s n with
+        | none => simp [unitOf, hs, List.findSome?_cons]
+        | some c => simp [unitOf, hs, List.findSome?_cons]
+
+/-- **derived frames**: after a successful `__finalize__` every result column that some source has reports the
+    unit of the *first* source that has it (`copy()` of that source's metadata, later sources may only agree) -/
+theorem finalize_first_unit (srcs : List Reg) (strict : Bool) (f : Frame) (i : Info)
+    (h : finalize srcs strict f = .ok i) (n u : Str) (hn : n ∈ f.names) (hu : Spec.firstUnit srcs n = some u) :
+    ∃ m, get i.reg n = some m ∧ m.unit = u := by
+  unfold finalize at h
+  cases hc : combine f.names [] srcs with
+  | error e => simp [hc] at h
+  | ok reg =>
+    simp only [hc, attach] at h
+    have hcu := combine_unit f.names [] srcs reg n hc hn
+    have hfu : (srcs.findSome? (fun s => get s n)).map (·.unit) = some u := by
+      unfold Spec.firstUnit at hu
+      rw [← hu]
+      congr 1
+      congr 1
+      funext s
+      exact get_eq_lookup s n
+    simp only [unitOf, Meta.get, Option.map_none] at hcu
+    rw [hfu] at hcu
+    cases hg : get reg n with
+    | none => simp [hg] at hcu
+    | some m =>
+      simp [hg] at hcu
+      have hk := checkDataframe_keeps { reg := reg, last := none, strict := strict } f n m hn hg
+      cases hcd : checkDataframe { reg := reg, last := none, strict := strict } f with
+      | mk i1 e =>
+        rw [hcd] at h hk
+        cases e with
+        | some e => simp at h
+        | none => simp at h; subst h; exact ⟨m, hk, hcu⟩
+
+/-! ### one operation, then all histories -/
+
+theorem make_own_units_get (f : Frame) (us : List Str) (strict : Bool) (i : Info)
+    (h : make f (some us) none strict = .ok i) (he : f.empty = false) (n u : Str)
+    (hp : (n, u) ∈ f.names.zip us) : ∃ m, get i.reg n = some m ∧ m.unit = u := by
+  have := make_own_units f us strict i h he (n, u) (by simpa [Frame.names] using hp)
+  simpa [get_eq_lookup] using this
+
+theorem forget_some (own : Spec.Own) (ks : List Str) (n u : Str) (h : Spec.forget own ks n = some u) :
+    n ∉ ks ∧ own n = some u := by
+  unfold Spec.forget at h
+  by_cases hk : n ∈ ks
+  · simp [hk] at h
+  · simp only [hk, if_false] at h; exact ⟨hk, h⟩
+
+theorem restrictOwn_some (own : Spec.Own) (ns : List Str) (n u : Str) (h : Spec.restrictOwn own ns n = some u) :
+    n ∈ ns ∧ own n = some u := by
+  unfold Spec.restrictOwn at h
+  by_cases hk : n ∈ ns
+  · simp only [hk, if_true] at h; exact ⟨hk, h⟩
+  · simp [hk] at h
+
+theorem step_rewrap (t : Tbl) (us : Option (List Str)) (st : Option Bool) :
+    step t (.rewrap us st) =
+      match checkDataframe t.info t.frame with
+      | (i1, some e) => ({ t with info := i1 }, some e)
+      | (i1, none) =>
+        match make t.frame (some (us.getD (units i1.reg))) none (st.getD i1.strict) with
+        | .ok i2 => ({ t with info := i2 }, none)
+        | .error e => ({ t with info := i1 }, some e) := by
+  simp only [step, rewrap]
+  cases checkDataframe t.info t.frame with
+  | mk i1 e =>
+    cases e with
+    | some e => rfl
+    | none =>
+      simp only
+      cases make t.frame (some (us.getD (units i1.reg))) none (st.getD i1.strict) <;> rfl
+
+theorem step_derive (t : Tbl) (srcs : List Reg) (st : Bool) (f : Frame) :
+    step t (.derive srcs st f) =
+      match finalize srcs st f with
+      | .ok i2 => ({ info := i2, frame := f }, none)
+      | .error e => (t, some e) := by
+  rfl
+
+/-- **every operation keeps every column's own unit** (frame effects, sources and results of derived frames
+    universally quantified; whether the operation succeeds or raises) -/
+theorem step_owns (t : Tbl) (own : Spec.Own) (op : Op) (hg : Good t.info) (h : OwnsG t.info t.frame own) :
+    OwnsG (step t op).1.info (step t op).1.frame (Spec.track t own op) := by
+  cases op with
+  | mutate f =>
+    intro n u hn
+    simp only [Spec.track, Spec.restrictOwn] at hn
+    by_cases hin : n ∈ f.names
+    · simp only [hin, if_true] at hn
+      exact ⟨by simpa [step] using hin, by simpa [step] using (h n u hn).2⟩
+    · simp [hin] at hn
+  | consult =>
+    intro n u hn
+    simp only [Spec.track] at hn
+    obtain ⟨hin, m, h1, h2⟩ := h n u hn
+    exact ⟨by simpa [step] using hin, m, by simpa [step, consult] using checkDataframe_keeps t.info t.frame n m hin h1, h2⟩
+  | addColumn n0 u0 du fm f =>
+    intro n u hn
+    simp only [Spec.track, Spec.restrictOwn] at hn
+    by_cases hin : n ∈ f.names
+    · simp only [hin, if_true] at hn
+      refine ⟨by simpa [step] using hin, ?_⟩
+      by_cases hk : n = n0
+      · subst hk
+        simp only [if_true] at hn
+        by_cases hok : (step t (.addColumn n u0 du fm f)).2.isNone = true
+        · simp only [hok, if_true] at hn
+          subst hn
+          simp only [step] at hok ⊢
+          cases hac : addColumn t.info f n (some u) du fm with
+          | mk i' e =>
+            rw [hac] at hok
+            simp only at hok ⊢
+            cases e with
+            | some e => simp at hok
+            | none => exact addColumn_get_target t.info i' f n u du fm hac
+        · simp [hok] at hn
+      · simp only [hk, if_false] at hn
+        obtain ⟨_, m, h1, h2⟩ := h n u hn
+        exact ⟨m, by simp only [step]; rw [addColumn_get_other _ _ _ _ _ _ _ hk]; exact h1, h2⟩
+    · simp [hin] at hn
+  | setUnits m =>
+    intro n u hn
+    simp only [Spec.track] at hn
+    by_cases hok : (step t (.setUnits m)).2.isNone = true
+    · simp only [hok, if_true, Spec.restrictOwn] at hn
+      by_cases hin : n ∈ t.frame.names
+      · simp only [hin, if_true] at hn
+        simp only [step] at hok ⊢
+        cases hs : setUnits t.info t.frame m with
+        | mk i' e =>
+          rw [hs] at hok
+          cases e with
+          | some e => simp at hok
+          | none => exact ⟨hin, setUnits_owns t.info i' t.frame m own hs h n u hn⟩
+      · simp [hin] at hn
+    · simp only [hok] at hn
+      obtain ⟨hkm, hn⟩ := forget_some _ _ _ _ hn
+      · obtain ⟨hin, mm, h1, h2⟩ := h n u hn
+        exact ⟨by simpa [step] using hin, mm, by simpa [step] using setUnits_get_other t.info t.frame m n mm hkm hin h1, h2⟩
+  | setAllUnits us =>
+    intro n u hn
+    simp only [Spec.track] at hn
+    by_cases hok : (step t (.setAllUnits us)).2.isNone = true
+    · simp only [hok, if_true, Spec.restrictOwn] at hn
+      by_cases hin : n ∈ t.frame.names
+      · simp only [hin, if_true] at hn
+        simp only [step, setAllUnits] at hok ⊢
+        cases hs : setUnits t.info t.frame (t.frame.names.zip us) with
+        | mk i' e =>
+          rw [hs] at hok
+          cases e with
+          | some e => simp at hok
+          | none => exact ⟨hin, setUnits_owns t.info i' t.frame _ own hs h n u hn⟩
+      · simp [hin] at hn
+    · simp only [hok] at hn
+      obtain ⟨hkm, hn⟩ := forget_some _ _ _ _ hn
+      · obtain ⟨hin, mm, h1, h2⟩ := h n u hn
+        exact ⟨by simpa [step] using hin, mm,
+          by simpa [step, setAllUnits] using setUnits_get_other t.info t.frame _ n mm hkm hin h1, h2⟩
+  | setColUnit n0 u0 =>
+    intro n u hn
+    simp only [Spec.track] at hn
+    by_cases hc : n0 ∈ t.frame.names
+    · by_cases hd : dupLabel t.frame n0 = true
+      · -- refused before the info is touched
+        have hok : (step t (.setColUnit n0 u0)).2.isNone = false := by simp [step, setColUnit, hc, hd]
+        simp only [hok, Bool.false_eq_true, if_false] at hn
+        obtain ⟨_, hn⟩ := forget_some _ _ _ _ hn
+        simpa [step, setColUnit, hc, hd] using h n u hn
+      · have hstep : step t (.setColUnit n0 u0) =
+            ({ t with info := (setUnits t.info t.frame [(n0, u0)]).1 }, (setUnits t.info t.frame [(n0, u0)]).2) := by
+          simp [step, setColUnit, hc, hd]
+        rw [hstep] at hn ⊢
+        simp only at hn ⊢
+        by_cases hok : (setUnits t.info t.frame [(n0, u0)]).2.isNone = true
+        · simp only [hok, if_true, Spec.restrictOwn] at hn
+          by_cases hin : n ∈ t.frame.names
+          · simp only [hin, if_true] at hn
+            cases hs : setUnits t.info t.frame [(n0, u0)] with
+            | mk i' e =>
+              rw [hs] at hok
+              cases e with
+              | some e => simp at hok
+              | none => exact ⟨hin, setUnits_owns t.info i' t.frame _ own hs h n u hn⟩
+          · simp [hin] at hn
+        · simp only [hok] at hn
+          obtain ⟨hkm, hn⟩ := forget_some _ _ _ _ hn
+          obtain ⟨hin, mm, h1, h2⟩ := h n u hn
+          exact ⟨hin, mm, setUnits_get_other t.info t.frame _ n mm (by simpa using hkm) hin h1, h2⟩
+    · have hok : (step t (.setColUnit n0 u0)).2.isNone = false := by simp [step, setColUnit, hc]
+      simp only [hok, Bool.false_eq_true, if_false] at hn
+      obtain ⟨_, hn⟩ := forget_some _ _ _ _ hn
+      simpa [step, setColUnit, hc] using h n u hn
+  | setFmt n0 fm =>
+    intro n u hn
+    simp only [Spec.track] at hn
+    obtain ⟨hin, mm, h1, h2⟩ := h n u hn
+    obtain ⟨mm', h3, h4⟩ := setColFmt_unit t.info t.frame n0 n fm mm hin h1
+    exact ⟨by simpa [step] using hin, mm', by simpa [step] using h3, by rw [h4]; exact h2⟩
+  | setStrict b =>
+    intro n u hn
+    simp only [Spec.track] at hn
+    simpa [step] using h n u hn
+  | rewrap us st =>
+    intro n u hn
+    simp only [Spec.track] at hn
+    have hgood := checkDataframe_good t.info t.frame hg
+    rw [step_rewrap] at hn ⊢
+    cases hcd : checkDataframe t.info t.frame with
+    | mk i1 e =>
+      simp only [hcd] at hn
+      rw [hcd] at hgood
+      have keep : ∀ n u, own n = some u → n ∈ t.frame.names ∧ ∃ m, get i1.reg n = some m ∧ m.unit = u := by
+        intro n u hn
+        obtain ⟨hin, m, h1, h2⟩ := h n u hn
+        have := checkDataframe_keeps t.info t.frame n m hin h1
+        rw [hcd] at this
+        exact ⟨hin, m, this, h2⟩
+      cases e with
+      | some e => simp only at hn ⊢; simpa using keep n u (by simpa using hn)
+      | none =>
+        simp only at hn ⊢
+        cases hm : make t.frame (some (us.getD (units i1.reg))) none (st.getD i1.strict) with
+        | error e => simp only [hm] at hn ⊢; simpa using keep n u (by simpa using hn)
+        | ok i2 =>
+          simp only [hm] at hn ⊢
+          simp only [Option.isNone_none, if_true] at hn ⊢
+          by_cases he : t.frame.empty = true
+          · simp [he] at hn
+          · have he' : t.frame.empty = false := by simpa using he
+            simp only [he', Bool.false_eq_true, if_false] at hn
+            cases us with
+            | none =>
+              simp only at hn
+              obtain ⟨hin, m, h1, h2⟩ := keep n u hn
+              have hkeys : keys i1.reg = t.frame.names :=
+                hgood.keysOk t.frame (checkDataframe_ok_last t.info i1 t.frame hcd) (Or.inl he')
+              have hz := mem_zip_keys_units i1.reg n m h1
+              rw [hkeys, h2] at hz
+              exact ⟨hin, make_own_units_get t.frame _ _ i2 hm he' n u (by simpa using hz)⟩
+            | some l =>
+              simp only at hn
+              have hz := zipOwn_mem t.frame.names l n u hn
+              exact ⟨(List.of_mem_zip hz).1, make_own_units_get t.frame _ _ i2 hm he' n u (by simpa using hz)⟩
+  | derive srcs st f =>
+    intro n u hn
+    simp only [Spec.track] at hn
+    rw [step_derive] at hn ⊢
+    cases hf : finalize srcs st f with
+    | error e => simp only [hf] at hn ⊢; simpa using h n u (by simpa using hn)
+    | ok i2 =>
+      simp only [hf] at hn ⊢
+      simp only [Option.isNone_none, if_true, Spec.restrictOwn] at hn ⊢
+      by_cases hin : n ∈ f.names
+      · simp only [hin, if_true] at hn
+        exact ⟨hin, finalize_first_unit srcs st f i2 hf n u hin hn⟩
+      · simp [hin] at hn
+
+theorem run_owns (t : Tbl) (own : Spec.Own) (ops : List Op) (hg : Good t.info) (h : OwnsG t.info t.frame own) :
+    OwnsG (run t ops).info (run t ops).frame (Spec.trackRun t own ops) := by
+  induction ops generalizing t own with
+  | nil => simpa [run, Spec.trackRun] using h
+  | cons op ops ih =>
+    unfold run Spec.trackRun
+    exact ih _ _ (Meta.step_good t op hg) (step_owns t own op hg h)
+
+/-- **C04, "keeps exactly its own unit", all finite histories.**  Construct a table with a unit list on a frame
+    with rows (ownership: `zip(df.columns, units)`); apply any finite sequence of operations (arbitrary frame
+    effects, arbitrary derived frames); then consult.  If the consultation succeeds, every column that the
+    history says owns a unit — because it was given at construction and the column stayed, or through
+    `add_column`, a setter, a re-wrap, or inherited from the first source of a derived frame — is in the frame
+    and its per-column lookup reports exactly that unit (and by `reachable_inv` the positional list does too). -/
+theorem reachable_own (f0 : Frame) (us : List Str) (strict : Bool) (i0 : Info)
+    (h0 : make f0 (some us) none strict = .ok i0) (he0 : f0.empty = false) (ops : List Op) (t' : Tbl)
+    (hc : step (run ⟨i0, f0⟩ ops) .consult = (t', none)) :
+    Spec.Owns t' (Spec.trackRun ⟨i0, f0⟩ (Spec.zipOwn (f0.cols.map (·.name)) us) ops) := by
+  have hg0 := Meta.make_good f0 (some us) none strict i0 h0
+  have h00 : OwnsG i0 f0 (Spec.zipOwn (f0.cols.map (·.name)) us) := by
+    intro n u hn
+    have hz := zipOwn_mem _ _ n u hn
+    exact ⟨(List.of_mem_zip hz).1, make_own_units_get f0 us strict i0 h0 he0 n u hz⟩
+  have hr := run_owns ⟨i0, f0⟩ _ ops hg0 h00
+  have hgr := Meta.run_good ⟨i0, f0⟩ ops hg0
+  have hs := step_owns (run ⟨i0, f0⟩ ops) _ .consult hgr hr
+  rw [hc] at hs
+  rw [owns_iff]
+  simpa [Spec.track] using hs
+
+/-- the same for a history that starts from a derived frame: ownership starts as "first source that has it" -/
+theorem reachable_own_derived (srcs : List Reg) (strict : Bool) (f0 : Frame) (i0 : Info)
+    (h0 : finalize srcs strict f0 = .ok i0) (ops : List Op) (t' : Tbl)
+    (hc : step (run ⟨i0, f0⟩ ops) .consult = (t', none)) :
+    Spec.Owns t' (Spec.trackRun ⟨i0, f0⟩ (Spec.restrictOwn (Spec.firstUnit srcs) f0.names) ops) := by
+  have hg0 := Meta.finalize_good srcs strict f0 i0 h0
+  have h00 : OwnsG i0 f0 (Spec.restrictOwn (Spec.firstUnit srcs) f0.names) := by
+    intro n u hn
+    simp only [Spec.restrictOwn] at hn
+    by_cases hin : n ∈ f0.names
+    · simp only [hin, if_true] at hn
+      exact ⟨hin, finalize_first_unit srcs strict f0 i0 h0 n u hin hn⟩
+    · simp [hin] at hn
+  have hr := run_owns ⟨i0, f0⟩ _ ops hg0 h00
+  have hgr := Meta.run_good ⟨i0, f0⟩ ops hg0
+  have hs := step_owns (run ⟨i0, f0⟩ ops) _ .consult hgr hr
+  rw [hc] at hs
+  rw [owns_iff]
+  simpa [Spec.track] using hs
+
 /-! ## writers -/
 
 /-- **CSV / Excel writers**: after any history, if the writer's consultation succeeds on a frame with rows,
@@ -328,6 +980,37 @@ theorem json_pairs (f0 : Frame) (us : Option (List Str)) (um : Option (List (Str
         simp only [List.map_cons, List.zip_cons_cons, List.cons.injEq, Prod.mk.injEq, true_and]
         exact ⟨hu.1, ih ul hu.2 (by simpa using hl2)⟩
 
+/-- **transposed CSV / Excel writers** (`for col in table`: one line per column, `col.name`, `col.unit`): after
+    any history, if the consultation succeeds on a frame with rows, iterating the table yields exactly the
+    frame's columns in frame order, each paired with the unit its per-column lookup reports -/
+theorem iter_pairs (f0 : Frame) (us : Option (List Str)) (um : Option (List (Str × Str))) (strict : Bool)
+    (i0 : Info) (h0 : make f0 us um strict = .ok i0) (ops : List Op) (i1 : Info)
+    (hc : consult (run ⟨i0, f0⟩ ops).info (run ⟨i0, f0⟩ ops).frame = (i1, none))
+    (he : (run ⟨i0, f0⟩ ops).frame.empty = false) :
+    ∃ ps, tableIter (run ⟨i0, f0⟩ ops).info (run ⟨i0, f0⟩ ops).frame = (i1, .ok ps) ∧
+      ps.map (fun p => (p.1, some p.2)) =
+        (run ⟨i0, f0⟩ ops).frame.cols.map (fun c => (c.name, (Spec.lookup i1.reg c.name).map (·.unit))) := by
+  have hg := run_good ⟨i0, f0⟩ ops (make_good f0 us um strict i0 h0)
+  generalize run ⟨i0, f0⟩ ops = t at hg hc he
+  unfold consult at hc
+  obtain ⟨hinv, hnd⟩ := inv_after_check t.info i1 t.frame hg hc he
+  have hp := (units_positional ⟨i1, t.frame⟩ hinv hnd).1
+  have hk : keys i1.reg = t.frame.names := hinv
+  refine ⟨i1.reg.map (fun kv => (kv.1, kv.2.unit)), ?_, ?_⟩
+  · unfold tableIter consult
+    rw [hc]
+    have : (keys i1.reg).all (fun n => t.frame.names.contains n) = true := by
+      rw [hk]; simp
+    simp only [this, if_true]
+  · simp only at hp
+    have h1 : i1.reg.map (fun kv => (kv.1, some kv.2.unit)) =
+        (i1.reg.map (·.1)).zip (i1.reg.map (fun kv => some kv.2.unit)) := (List.zip_map' ..).symm
+    have h2 : t.frame.cols.map (fun c => (c.name, (Spec.lookup i1.reg c.name).map (·.unit))) =
+        (t.frame.cols.map (·.name)).zip (t.frame.cols.map (fun c => (Spec.lookup i1.reg c.name).map (·.unit))) :=
+      (List.zip_map' ..).symm
+    rw [List.map_map, h2, ← hp, ← (hinv : i1.reg.map (·.1) = t.frame.cols.map (·.name)), ← h1]
+    rfl
+
 /-! ## non-vacuity -/
 
 private def fA : Frame := ⟨[⟨"a".toList, "f8".toList, "f".toList⟩, ⟨"b".toList, "str".toList, "O".toList⟩], false⟩
@@ -346,5 +1029,16 @@ example :
 example : updateColumns true [("b".toList, { unit := "text".toList }), ("zz".toList, { unit := "kg".toList }),
       ("a".toList, { unit := "m".toList })] fA =
     ([("a".toList, { unit := "m".toList }), ("b".toList, { unit := "text".toList })], none) := by decide
+
+/-- `reachable_own` is about something: after inserting a column in front, swapping the others and relabelling `a`,
+    the history says `a` owns "mm", `b` still owns "text" and the inserted `n` owns nothing — and the consultation
+    reports exactly these -/
+example :
+    (make fA (some ["m".toList, "text".toList]) none true).toOption.map (fun i =>
+      let ops := [Op.consult, .mutate fB, .setColUnit "a".toList "mm".toList]
+      let own := Spec.trackRun ⟨i, fA⟩ (Spec.zipOwn (fA.cols.map (·.name)) ["m".toList, "text".toList]) ops
+      let t' := (step (run ⟨i, fA⟩ ops) .consult).1
+      (own "a".toList, own "b".toList, own "n".toList, units t'.info.reg)) =
+    some (some "mm".toList, some "text".toList, none, ["-".toList, "text".toList, "mm".toList]) := by decide
 
 end Pdt.C04
